@@ -21,7 +21,7 @@ WORKERS = 6
 RULE = ('seeded random histories over 1-12 endpoints (+ up to 3 spare): in half of them 1-5 join/leave notifications arrive before '
         'the initial list (which may contain duplicates or be empty) is installed; afterwards churn-heavy phases (joins of known and '
         'unknown endpoints, leaves of unknown, idle, loaded, marked-down members, re-joins) interleaved with traffic, channel flapping '
-        'and saturating bursts; 15% on ApertureBalancerSink with all members active; exhaustive (thorough): every sequence of 6 '
+        'and saturating bursts; 15% on ApertureBalancerSink with all members active; exhaustive (thorough): every sequence of 5 '
         'notifications over 2 endpoints around Init; non-trivial = at least 3 requests dispatched; distinct by canonical JSON')
 TRUSTED = ['mock server-set provider (serial delivery, blocking GetServers) / mock channels / scripted random.shuffle of '
            'harness/c03_balancer_driver.py', 'reference server set and burst oracle of the monitor (analyse) in the same file']
@@ -53,7 +53,7 @@ stats = D.stats
 def gen_cases(tier, seed):
   out = D.gen_cases(PID, tier, seed, 260, 5000)
   if tier == 'thorough':
-    out += D.gen_membership_exhaustive(6)
+    out += D.gen_membership_exhaustive(5)
   return out
 
 
